@@ -118,10 +118,12 @@ def run(ctx, rep, tier):
         for opn in ("And", "Or", "List"):
             shapes.append((opn, a, b))
     rnd.shuffle(shapes)
-    budget = 100 if tier == "quick" else 2400
-    t1 = time.time()
-    for opn, a, b in shapes:
-        if time.time() - t1 > budget:
+    # a fixed number of shapes (the selection depends on VERIF_SEED only); the CPU-time budget is a safety net
+    budget = 400 if tier == "quick" else 6000
+    t1 = time.process_time()
+    for opn, a, b in (shapes[:300] if tier == "quick" else shapes):
+        if time.process_time() - t1 > budget:
+            rep.coverage["pairs_truncated_at"] = n
             break
         tree = Adt("Expression", "Operator", [BoxV(Adt("Operator", opn, [a[1], b[1]]), "Rc")])
         if n % 4 == 0:
@@ -130,9 +132,12 @@ def run(ctx, rep, tier):
         one("tree%d" % n, tree, a[2] + b[2], mk, [a[0], b[0]])
         n += 1
     # three-leaf trees (sampled)
-    t2 = time.time()
-    budget3 = 30 if tier == "quick" else 1500
-    while time.time() - t2 < budget3:
+    t2 = time.process_time()
+    budget3 = 200 if tier == "quick" else 4000
+    for _ in range(40 if tier == "quick" else 2000):
+        if time.process_time() - t2 > budget3:
+            rep.coverage["triples_truncated_at"] = n
+            break
         a, b, c = rnd.choice(alpha), rnd.choice(alpha), rnd.choice(alpha)
         o1, o2 = rnd.choice(["And", "Or", "List"]), rnd.choice(["And", "Or", "List"])
         inner = Adt("Expression", "Operator", [BoxV(Adt("Operator", o1, [a[1], b[1]]), "Rc")])
@@ -146,7 +151,7 @@ def run(ctx, rep, tier):
                "constants symbolic) and %d operator trees; each program produced by the real compile (MIR) is executed on a symbolic file "
                "record and compared with find semantics by z3 for all files and constants" % (n_leaf, n - n_leaf),
                programs=n, disagreements_checked=len(rep.violations) + len(rep.known_hits), samples=samples,
-               bounds=dict(tree_leaves="1, 2 (all pairs over a 14-leaf alphabet x and/or/',' within the time budget), 3 (sampled)",
+               bounds=dict(tree_leaves="1, 2 (quick: 300 of the 768 ordered pairs over a 16-leaf alphabet x and/or/','; thorough: all), 3 (40 / 2000 sampled)",
                            constants="symbolic u32/u64 counts, 12 permission bits, symbolic clock"),
                outside="the real Guile/LiPE runtime (modelled contract); strftime/user-name rendering (opaque); inputs whose compile panics "
                        "(size overflow: C03/C07); ASCII escapes >= 128; strings containing quote, backslash or tilde (C04)",
